@@ -117,7 +117,7 @@ partial def histModel (s : Stk) (ops : List HOp) (acc : List String) : List Stri
       let d := match d' with
         | .stk _ c' xs' => obsModel { cfg := c', xs := xs' }
         | _ => "-"
-      histModel s rest (s!"{b01 ok} dst\{{d}} {obsModel s}" :: acc)
+      histModel s rest (s!"{b01 ok} dst\{{d}} sd0 {obsModel s}" :: acc)
     | .q kind arg =>
       let ret := if kind == "convert" then b01 arg.isStack ++ b01 arg.isCond
                  else if kind == "xfer" then b01 (s.Transfer interp arg).2
@@ -188,7 +188,7 @@ partial def histSpec (st : SpecSt) (ops : List HOp) (acc : List String) : List S
           if dv.c.ronly then (obsSpec dv, false)
           else let (d', ok) := specTransfer st.l dv; (obsSpec d', ok)
         | _ => ("-", false)
-      histSpec st rest (s!"{b01 ok} dst\{{d}} {obsSpec st}" :: acc)
+      histSpec st rest (s!"{b01 ok} dst\{{d}} sd0 {obsSpec st}" :: acc)
     | .q kind arg =>
       -- C08: the call returns normally; Convert* succeed exactly on initialised Stacks / Conditions (any form);
       -- Transfer into anything that is not an initialised, writable Stack reports false
